@@ -426,6 +426,16 @@ def implies(cons, lin, op, bnd=None):
     """Does cons |= (lin op 0)?  (sound: True is a proof)"""
     try:
         if op == "<=":
+            if lin.is_const():
+                return lin.k <= 0
+            lo, hi = interval(lin, bnd)
+            if hi <= 0:
+                return True
+            # syntactic hit: the same form (or a stronger one differing by the constant) is a stated constraint
+            k0 = (lin - lin.k).key()
+            for l2, o2 in cons:
+                if o2 in ("<=", "==") and (l2 - l2.k).key() == k0 and l2.k >= lin.k:
+                    return True
             return not feasible(list(cons) + [(-lin + 1, "<=")], bnd)  # lin >= 1 infeasible
         if op == "==":
             return (not feasible(list(cons) + [(-lin + 1, "<=")], bnd)) and (
